@@ -2227,6 +2227,25 @@ func corpus() []jcase {
 				{Q: "roi", Spans: [][4]int{{0, 0, -1, 0}, {1, 0, 0, 0}, {0, 1, -2, 2}}}}},
 			{Op: "labels", LabelLists: []jlabels{{L: 1, Elems: []elem{{Pos: pos{-9, 1, 1}, Kind: 1}}}, {L: 0, Elems: []elem{{Pos: pos{1, 1, 1}, Kind: 1}}}}, Force: true},
 		}},
+		// (vii) cleaves and splits that carry away some, all, none of the target body's annotated points; after
+		// each one every label list and count is read again, and a reload (alternating variants) rebuilds them
+		{Paint0: pt, Ops: []jop{
+			{Op: "post", Elems: []elem{{Pos: pos{9, 1, 1}, Kind: 2, Tags: []int{1}}, {Pos: pos{12, 1, 1}, Kind: 1}, {Pos: pos{20, 1, 1}, Kind: 4},
+				{Pos: pos{28, 1, 1}, Kind: 3, Tags: []int{1}}, {Pos: pos{-3, 1, 1}, Kind: 2}, {Pos: pos{-12, 15, 15}, Kind: 1, Tags: []int{2}}}},
+			{Op: "merge", Target: 1, Labels: []uint64{2, 3}, Force: true},
+			{Op: "cleave", Target: 1, Labels: []uint64{3}, Force: true, Queries: []jquery{{Q: "top", I: 5, N: 6}}}, // some of body 1's points move
+			{Op: "reload", Force: true},
+			{Op: "cleave", Target: 1, Labels: []uint64{2}, Force: true, Queries: []jquery{{Q: "top", I: 5, N: 6}, {Q: "thr", I: 4, Thr: 1}}}, // all remaining points move
+			{Op: "reload", LowMem: true, Force: true},
+			{Op: "merge", Target: 5, Labels: []uint64{1}, Force: true},
+			{Op: "cleave", Target: 5, Labels: []uint64{1}, Force: true, Queries: []jquery{{Q: "top", I: 5, N: 6}}}, // none moves
+			{Op: "reload", Force: true},
+			{Op: "split", Target: 5, P: pos{-8, 0, 0}, Q: pos{-1, 0, 0}, Force: true},   // some
+			{Op: "split", Target: 5, P: pos{-14, 0, 0}, Q: pos{-10, 0, 0}, Force: true}, // all remaining
+			{Op: "reload", LowMem: true, Force: true},
+			{Op: "split", Target: 5, P: pos{-16, 0, 0}, Q: pos{-16, 0, 0}, Force: true, Queries: []jquery{{Q: "top", I: 5, N: 6}}}, // none
+			{Op: "reload", Force: true},
+		}},
 	}
 }
 
@@ -2262,9 +2281,9 @@ func main() {
 			runStored(run, "history", jc)
 		}
 	} else {
-		n := 16
+		n := 17
 		if o.Thorough() {
-			n = 123
+			n = 124
 		}
 		if o.N > 0 {
 			n = o.N
